@@ -2733,7 +2733,11 @@ func (b *IPRouteBody) serialize(version uint8, software Software) ([]byte, error
 	// only zapi version 5 (frr4.0.x) have evpn routes
 	if version == 5 && b.Flags&flagEvpnRoute.ToEach(version, software) > 0 {
 		// size of struct ethaddr is 6 octets defined by ETH_ALEN
-		buf = append(buf, b.Nexthops[numNexthop-1].rmac[:6]...)
+		var rmac [6]byte // the router MAC is kept in the last nexthop
+		if numNexthop > 0 {
+			rmac = b.Nexthops[numNexthop-1].rmac
+		}
+		buf = append(buf, rmac[:6]...)
 	}
 	if version > 4 { // version 5, 6 (after frr4)
 		if b.Prefix.Family == syscall.AF_UNSPEC {
